@@ -52,6 +52,17 @@ func SelfValidate(prop, repo, verif string, rep *core.Report) {
 				concerns = true
 			}
 		}
+		// a behaviour-preserving refactor concerns every property whose anchored package it touches
+		if !concerns && meta.Kind == "refactor" {
+			if pb, err := os.ReadFile(filepath.Join(filepath.Dir(m), "patch.diff")); err == nil {
+				rel := pkgOf[prop]
+				for _, ln := range strings.Split(string(pb), "\n") {
+					if strings.HasPrefix(ln, "+++ b/") && rel != "" && strings.HasPrefix(strings.TrimPrefix(ln, "+++ b/"), rel+"/") {
+						concerns = true
+					}
+				}
+			}
+		}
 		if !concerns {
 			continue
 		}
